@@ -48,6 +48,11 @@ Definition mk_disc (salt : json) (key : option string) (v : json) : disc :=
 
 Definition placeholder_json (g : string) : json := JObj [("...", JStr g)].
 
+(* Value::get("...").is_some() on an array element: what is left of an element that an earlier path made
+   disclosable is its placeholder (repair F20) *)
+Definition has_dots (v : json) : bool :=
+  match v with JObj kvs => match obj_get "..." kvs with Some _ => true | None => false end | _ => false end.
+
 (* last step of build_disclosure, on the parent node *)
 Definition disclose_here (key : string) (salt : json) (parent : json) : res (json * disc) :=
   match parent with
@@ -57,7 +62,8 @@ Definition disclose_here (key : string) (salt : json) (parent : json) : res (jso
       | Some i =>
           match nth_error xs i with
           | None => Err                                   (* repaired: was a panic in Vec::remove *)
-          | Some v => let d := mk_disc salt None v in
+          | Some v => if has_dots v then Err else
+                      let d := mk_disc salt None v in
                       Ok (JArr (list_set i (placeholder_json (d_digest d)) xs), d)
           end
       end
